@@ -179,7 +179,10 @@ Qed.
 
 (* ---------------------------------------------------------------- expanded_bit_depth_to_8 *)
 Definition expand_ctype (c : color_type) (bits : Z) : color_type :=
-  match c with Gray (Some trans) => Gray (Some (replicate16 3 trans bits)) | c => c end.
+  match c with
+  | Gray (Some trans) => Gray (Some (replicate16 3 trans bits))
+  | Gray None => Gray None | RGB key => RGB key | Indexed pal => Indexed pal | GrayAlpha => GrayAlpha | RGBA => RGBA
+  end.
 
 Lemma pixel_expand c bits g : In bits depths_lt8 -> channels_per_pixel c = 1 -> wf_ctype c bits ->
   length g = Z.to_nat bits ->
@@ -209,7 +212,13 @@ Proof.
   intros [Hok Hwf] Hexp Hsem. unfold expanded_bit_depth_to_8 in Hexp.
   destruct (Z.leb_spec 8 (depth (hdr img))) as [|Hd]; [discriminate|].
   destruct (sem_some_cut _ _ Hsem) as (Hw & Hh & Hbpp & lines & Hcut).
-  rewrite (scan_lines_is_layout img lines Hw Hh Hbpp Hcut) in Hexp. cbn [bind] in Hexp. injection Hexp as <-.
+  rewrite (scan_lines_is_layout img lines Hw Hh Hbpp Hcut) in Hexp. cbn [bind] in Hexp.
+  cbv zeta in Hexp.
+  match type of Hexp with context [with_ctype (hdr img) ?c] => change c with (expand_ctype (ctype (hdr img)) (depth (hdr img))) in Hexp end.
+  remember (expand_ctype (ctype (hdr img)) (depth (hdr img))) as ct' eqn:Hct'.
+  remember (flat_map (fun l => firstn (Z.to_nat (l_npix l)) (flat_map (fun b => expand_byte (Z.to_nat (8 / depth (hdr img))) b (depth (hdr img)) (2 ^ depth (hdr img) - 1)
+              match ctype (hdr img) with Gray _ => true | _ => false end) (l_data l))) (map to_scanline lines)) as newdata eqn:Hnd.
+  injection Hexp as <-.
   pose proof (sem_some_legal _ _ Hsem) as Hlegal.
   (* depth < 8: one channel, depth 1, 2 or 4 *)
   assert (Hch : channels_per_pixel (ctype (hdr img)) = 1 /\ In (depth (hdr img)) depths_lt8).
@@ -219,13 +228,12 @@ Proof.
   set (bits := depth (hdr img)) in *.
   assert (Hbpp1 : bpp (hdr img) = bits) by (unfold bpp; rewrite Hch; lia).
   set (isg := match ctype (hdr img) with Gray _ => true | _ => false end).
-  fold (expand_ctype (ctype (hdr img)) bits).
   set (T := fun l : option Z * Z * list Z =>
               firstn (Z.to_nat (snd (fst l))) (flat_map (fun b => expand_byte (Z.to_nat (8 / bits)) b bits (2 ^ bits - 1) isg) (snd l))).
   assert (Hdata : flat_map (fun l => firstn (Z.to_nat (l_npix l)) (flat_map (fun b => expand_byte (Z.to_nat (8 / bits)) b bits (2 ^ bits - 1) isg) (l_data l))) (map to_scanline lines)
                   = concat (map T lines)).
   { rewrite flat_map_concat_map, map_map. reflexivity. }
-  rewrite Hdata.
+  fold bits isg in Hnd. rewrite Hdata in Hnd. subst newdata.
   assert (Hlines_ok : forall l, In l lines -> bytes_ok (snd l)).
   { destruct (cut_layout_shape _ _ _ Hcut) as [_ Hd0]. intros l Hl. unfold bytes_ok. apply Forall_forall. intros x Hx.
     eapply bytes_ok_in; [exact Hok|]. rewrite Hd0. apply in_concat. exists (snd l). split; [apply in_map; exact Hl|exact Hx]. }
@@ -255,28 +263,346 @@ Proof.
     lia. }
   split.
   - apply (sem_linewise img _ T lines pic); cbn [hdr data width height interlaced depth ctype with_ctype with_depth]; auto.
-    + unfold expand_ctype. destruct (ctype (hdr img)) as [[?|]| | | |]; cbn in Hch |- *; try lia; reflexivity.
-    + unfold bpp. cbn [depth ctype]. unfold expand_ctype. destruct (ctype (hdr img)) as [[?|]| | | |]; cbn in Hch |- *; lia.
-    + rewrite Hbpp1. exact Hcut.
+    + subst ct'. unfold expand_ctype. destruct (ctype (hdr img)) as [[?|]| | | |]; cbn in Hch |- *; try lia; reflexivity.
+    + unfold bpp. cbn [depth ctype]. subst ct'. unfold expand_ctype. destruct (ctype (hdr img)) as [[?|]| | | |]; cbn in Hch |- *; lia.
     + intros l Hl Hlen. rewrite Hbpp1 in *. destruct (HTl l Hl Hlen) as [HT1 HT2].
-      assert (Hbpp8 : bpp (with_depth (with_ctype (hdr img) (expand_ctype (ctype (hdr img)) bits)) 8) = 8).
-      { unfold bpp. cbn [depth ctype with_depth with_ctype]. unfold expand_ctype. destruct (ctype (hdr img)) as [[?|]| | | |]; cbn in Hch |- *; lia. }
+      assert (Hbpp8 : bpp (with_depth (with_ctype (hdr img) ct') 8) = 8).
+      { unfold bpp. cbn [depth ctype with_depth with_ctype]. subst ct'. unfold expand_ctype. destruct (ctype (hdr img)) as [[?|]| | | |]; cbn in Hch |- *; lia. }
       rewrite Hbpp8. split.
       * rewrite HT2. unfold line_bytes, cdiv. pose proof (Hnpix l Hl). f_equal. 
         replace (snd (fst l) * 8 + 8 - 1) with (snd (fst l) * 8 + 7) by lia. rewrite Z.div_add_l by lia. change (7 / 8) with 0. lia.
       * rewrite (line_pixels_8 _ _ HT2). rewrite HT1, !map_map.
-        apply Forall2_eq_map. intros g Hg. symmetry.
+        apply Forall2_eq_map. intros g Hg. symmetry. subst ct'. fold bits.
         apply pixel_expand; auto.
         unfold line_pixels in Hg. apply In_firstn in Hg. pose proof (groups_lengths (Z.to_nat bits) (sbits_of_bytes (snd l))) as GL.
         rewrite Forall_forall in GL. apply GL. exact Hg.
   - split; cbn [data hdr ctype depth with_ctype with_depth].
     + unfold bytes_ok. apply Forall_forall. intros x Hx. apply in_concat in Hx. destruct Hx as [tl [Htl Hx]].
       apply in_map_iff in Htl. destruct Htl as [l [<- Hl]].
-      assert (Hlen : length (snd l) = Z.to_nat (line_bytes bits (snd (fst l)))).
-      { destruct (cut_layout_shape _ _ _ Hcut) as [Hs _]. rewrite Hbpp1 in Hs. clear -Hs Hl.
-        revert lines Hs Hl. induction (spec_layout (width (hdr img)) (height (hdr img)) bits (interlaced (hdr img))) as [|lay t IH]; intros lines Hs Hl;
-          inversion Hs as [|? l0 ? ls [Hf Hlen] Hs']; subst; [destruct Hl|].
-        destruct Hl as [<-|Hl]; [|apply (IH ls); auto]. admit. }
-      admit.
-    + admit.
-Admitted.
+      destruct (cut_lines_lengths _ _ _ _ _ _ Hw Hh Hcut l Hl) as [Hlen _]. rewrite Hbpp1 in Hlen.
+      destruct (HTl l Hl Hlen) as [HT1 _]. rewrite HT1 in Hx. apply in_map_iff in Hx. destruct Hx as [g [<- Hg]].
+      assert (Hgl : length g = Z.to_nat bits).
+      { unfold line_pixels in Hg. apply In_firstn in Hg. pose proof (groups_lengths (Z.to_nat bits) (sbits_of_bytes (snd l))) as GL.
+        rewrite Forall_forall in GL. apply GL. exact Hg. }
+      pose proof (sval_range g) as Hv. rewrite Hgl in Hv. rewrite Z2Nat.id in Hv by (destruct Hbits as [<-|[<-|[<-|[]]]]; lia).
+      destruct isg.
+      * apply (rep_spec bits (sval g) Hbits Hv).
+      * destruct Hbits as [E|[E|[E|[]]]]; rewrite <- E in Hv; cbn in Hv; unfold byte_ok; lia.
+    + subst ct'. fold bits. unfold expand_ctype. destruct (ctype (hdr img)) as [[k|]| | | |]; try (cbn in Hch; lia); cbn [wf_ctype] in *; auto.
+      destruct (rep_spec bits k Hbits Hwf) as (_ & Hr & _ & E). rewrite E. change (2 ^ 8) with 256. exact Hr.
+Qed.
+
+(* ---------------------------------------------------------------- reduced_bit_depth_8_or_less *)
+Definition mask_of (bits : Z) : Z := 2 ^ bits - 1.
+
+(* a byte fits `bits` iff it is the replication of its low group; fitting is monotone in the depth; the high group of a fitting
+   byte is its low group *)
+Lemma fits_table : forallb (fun bits => forallb (fun v =>
+    Bool.eqb (fits bits v) (v =? rep8 bits (Z.land v (mask_of bits))) &&
+    (negb (fits bits v) || ((v / 2 ^ (8 - bits) =? Z.land v (mask_of bits)) && forallb (fun b2 => (b2 <? bits) || fits b2 v) depths_lt8)) &&
+    (Z.land v (mask_of bits) <? 2 ^ bits) && (0 <=? Z.land v (mask_of bits)))
+  bytes256) depths_lt8 = true.
+Proof. vm_compute. reflexivity. Qed.
+
+Lemma in_bytes256 v : 0 <= v < 256 -> In v bytes256.
+Proof. intros H. unfold bytes256. apply in_map_iff. exists (Z.to_nat v). split; [lia|]. apply in_seq. lia. Qed.
+
+Lemma fits_spec bits v : In bits depths_lt8 -> 0 <= v < 256 ->
+  (fits bits v = true <-> v = rep8 bits (Z.land v (mask_of bits))) /\
+  0 <= Z.land v (mask_of bits) < 2 ^ bits /\
+  (fits bits v = true -> v / 2 ^ (8 - bits) = Z.land v (mask_of bits) /\ forall b2, In b2 depths_lt8 -> bits <= b2 -> fits b2 v = true).
+Proof.
+  intros Hb Hv. pose proof fits_table as T. rewrite forallb_forall in T. specialize (T bits Hb). rewrite forallb_forall in T.
+  specialize (T v (in_bytes256 v Hv)). repeat (apply andb_true_iff in T; destruct T as [T ?]).
+  apply Bool.eqb_prop in T. split; [|split].
+  - rewrite T. apply Z.eqb_eq.
+  - split; [apply Z.leb_le; assumption|apply Z.ltb_lt; assumption].
+  - intros Hf. match goal with H : negb _ || _ = true |- _ => rewrite Hf in H; cbn [negb orb] in H; apply andb_true_iff in H; destruct H as [H1 H2] end.
+    split; [apply Z.eqb_eq; exact H1|]. intros b2 Hb2 Hle. rewrite forallb_forall in H2. specialize (H2 b2 Hb2).
+    apply orb_true_iff in H2. destruct H2 as [H2|H2]; [apply Z.ltb_lt in H2; lia|exact H2].
+Qed.
+
+(* all lists of a given length over a list of values *)
+Fixpoint lists_of {A} (vals : list A) (k : nat) : list (list A) :=
+  match k with O => [[]] | S k' => flat_map (fun t => map (fun v => v :: t) vals) (lists_of vals k') end.
+
+Lemma lists_of_complete {A} (vals : list A) : forall k l, length l = k -> (forall x, In x l -> In x vals) -> In l (lists_of vals k).
+Proof.
+  induction k as [|k IH]; intros l Hl Hin.
+  - destruct l; [left; reflexivity|cbn in Hl; lia].
+  - destruct l as [|x t]; [cbn in Hl; lia|]. cbn [lists_of]. apply in_flat_map. exists t. split.
+    + apply IH; [cbn in Hl; lia|]. intros y Hy. apply Hin. right. exact Hy.
+    + apply in_map_iff. exists x. split; [reflexivity|]. apply Hin. left. reflexivity.
+Qed.
+
+Definition chunk_lens (bits : Z) : list nat := seq 0 (S (Z.to_nat (8 / bits))).
+
+(* packing a chunk of in-range samples: a byte whose leading bit groups are the samples *)
+Lemma pack_table : forallb (fun bits => forallb (fun k => forallb (fun c =>
+    let p := pack_chunk c bits (mask_of bits) 8 in
+    (0 <=? p) && (p <? 256) && list_eqb Z.eqb (map sval (firstn k (groups (Z.to_nat bits) (sbits_of_byte p)))) c)
+  (lists_of (samples_lt bits) k)) (chunk_lens bits)) depths_lt8 = true.
+Proof. vm_compute. reflexivity. Qed.
+
+Lemma pack_chunk_masked c bits mask : forall shift, pack_chunk (map (fun v => Z.land v mask) c) bits mask shift = pack_chunk c bits mask shift.
+Proof.
+  induction c as [|v t IH]; intros shift; cbn [map pack_chunk]; [reflexivity|].
+  rewrite IH. rewrite <- Z.land_assoc, Z.land_diag. reflexivity.
+Qed.
+
+Lemma pack_chunk_spec bits c : In bits depths_lt8 -> (length c <= Z.to_nat (8 / bits))%nat -> bytes_ok c ->
+  let p := pack_chunk c bits (mask_of bits) 8 in
+  0 <= p < 256 /\ map sval (firstn (length c) (groups (Z.to_nat bits) (sbits_of_byte p))) = map (fun v => Z.land v (mask_of bits)) c.
+Proof.
+  intros Hb Hl Hok. cbn zeta. rewrite <- (pack_chunk_masked c bits (mask_of bits) 8).
+  set (c' := map (fun v => Z.land v (mask_of bits)) c).
+  pose proof pack_table as T. rewrite forallb_forall in T. specialize (T bits Hb). rewrite forallb_forall in T.
+  specialize (T (length c)). rewrite forallb_forall in T.
+  assert (Hk : In (length c) (chunk_lens bits)) by (unfold chunk_lens; apply in_seq; lia).
+  specialize (T Hk c').
+  assert (Hc' : In c' (lists_of (samples_lt bits) (length c))).
+  { apply lists_of_complete; [unfold c'; apply map_length|]. intros x Hx. unfold c' in Hx. apply in_map_iff in Hx. destruct Hx as [v [<- Hv]].
+    apply in_samples_lt; [exact Hb|]. apply fits_spec; [exact Hb|]. eapply bytes_ok_in; eauto. }
+  specialize (T Hc'). cbn zeta in T. repeat (apply andb_true_iff in T; destruct T as [T ?]).
+  split; [split; [apply Z.leb_le; assumption|apply Z.ltb_lt; assumption]|]. apply list_eqb_Z_spec. assumption.
+Qed.
+
+Lemma chunks_fuel_indep {A} (n : nat) : (0 < n)%nat -> forall f1 f2 (l : list A), (length l <= f1)%nat -> (length l <= f2)%nat ->
+  chunks_fuel f1 n l = chunks_fuel f2 n l.
+Proof.
+  intros Hn. induction f1 as [|f1 IH]; intros f2 l H1 H2.
+  - destruct l; [|cbn in H1; lia]. destruct f2; reflexivity.
+  - destruct f2 as [|f2]; [destruct l; [reflexivity|cbn in H2; lia]|].
+    cbn [chunks_fuel]. destruct l as [|x t]; [reflexivity|]. f_equal. apply IH; rewrite skipn_length; cbn [length] in *; lia.
+Qed.
+
+Lemma chunks_step {A} (n : nat) (l : list A) : (0 < n)%nat -> l <> [] -> chunks n l = firstn n l :: chunks n (skipn n l).
+Proof.
+  intros Hn Hl. unfold chunks. destruct n as [|n]; [lia|]. destruct l as [|x t]; [congruence|].
+  cbn [length chunks_fuel]. f_equal. apply chunks_fuel_indep; [lia| |lia]. rewrite skipn_length. cbn [length]. lia.
+Qed.
+
+Lemma chunks_nil {A} (n : nat) : chunks n (@nil A) = [].
+Proof. unfold chunks. destruct n; reflexivity. Qed.
+
+Lemma pack_line bits : In bits depths_lt8 -> forall (k : nat) (dl : list Z), (length dl <= k)%nat -> bytes_ok dl ->
+  let ppb := Z.to_nat (8 / bits) in
+  let tl := map (fun ch => pack_chunk ch bits (mask_of bits) 8) (chunks ppb dl) in
+  Z.of_nat (length tl) = cdiv (Z.of_nat (length dl)) (8 / bits) /\ bytes_ok tl /\
+  map sval (firstn (length dl) (groups (Z.to_nat bits) (sbits_of_bytes tl))) = map (fun v => Z.land v (mask_of bits)) dl.
+Proof.
+  intros Hb. cbn zeta.
+  assert (Hppb : (0 < Z.to_nat (8 / bits))%nat /\ 8 / bits = Z.of_nat (Z.to_nat (8 / bits)) /\ (Z.to_nat (8 / bits) * Z.to_nat bits = 8)%nat /\ (0 < Z.to_nat bits)%nat)
+    by (destruct Hb as [<-|[<-|[<-|[]]]]; cbn; lia).
+  destruct Hppb as (Hp0 & Hpz & Hp8 & Hbn). set (ppb := Z.to_nat (8 / bits)) in *.
+  induction k as [|k IH]; intros dl Hlen Hok.
+  - destruct dl; [|cbn in Hlen; lia]. rewrite chunks_nil. cbn. unfold cdiv. rewrite Hpz.
+    split; [|split; [constructor|reflexivity]]. symmetry. apply Z.div_small. lia.
+  - destruct dl as [|x t] eqn:Edl; [rewrite chunks_nil; cbn; unfold cdiv; rewrite Hpz; split; [symmetry; apply Z.div_small; lia|split; [constructor|reflexivity]]|].
+    rewrite <- Edl in *. assert (Hne : dl <> []) by (rewrite Edl; discriminate).
+    rewrite (chunks_step ppb dl Hp0 Hne). cbn [map length].
+    set (c := firstn ppb dl). set (r := skipn ppb dl).
+    assert (Hcl : (length c <= ppb)%nat) by (unfold c; rewrite firstn_length; lia).
+    assert (Hcok : bytes_ok c) by (apply bytes_ok_firstn; exact Hok).
+    destruct (pack_chunk_spec bits c Hb Hcl Hcok) as [Hpr Hpv]. cbn zeta in Hpr, Hpv.
+    set (p := pack_chunk c bits (mask_of bits) 8) in *.
+    assert (Hrlen : (length r <= k)%nat) by (unfold r; rewrite skipn_length; rewrite Edl in *; cbn [length] in *; lia).
+    destruct (IH r Hrlen (bytes_ok_skipn _ _ Hok)) as (I1 & I2 & I3).
+    split; [|split].
+    + rewrite Nat2Z.inj_succ, I1. unfold r. rewrite skipn_length. unfold cdiv. rewrite Hpz.
+      assert (Hdl : (1 <= length dl)%nat) by (rewrite Edl; cbn; lia).
+      destruct (Nat.le_gt_cases ppb (length dl)) as [Hge|Hlt].
+      * replace (Z.of_nat (length dl - ppb)) with (Z.of_nat (length dl) - Z.of_nat ppb) by lia.
+        replace (Z.of_nat (length dl) + Z.of_nat ppb - 1) with ((Z.of_nat (length dl) - Z.of_nat ppb + Z.of_nat ppb - 1) + 1 * Z.of_nat ppb) by lia.
+        rewrite Z.div_add by lia. lia.
+      * replace (length dl - ppb)%nat with 0%nat by lia. cbn [Z.of_nat]. rewrite (Z.div_small (0 + Z.of_nat ppb - 1)) by lia.
+        replace (Z.of_nat (length dl) + Z.of_nat ppb - 1) with ((Z.of_nat (length dl) - 1) + 1 * Z.of_nat ppb) by lia.
+        rewrite Z.div_add by lia. rewrite Z.div_small by lia. lia.
+    + apply Forall_cons; [exact Hpr|exact I2].
+    + change (sbits_of_bytes (p :: ?t)) with (sbits_of_byte p ++ sbits_of_bytes t).
+      rewrite (groups_app (Z.to_nat bits) (sbits_of_byte p) _ ppb) by (auto; rewrite sbits_of_byte_length; lia).
+      set (G := groups (Z.to_nat bits) (sbits_of_byte p)) in *.
+      assert (HG : length G = ppb).
+      { unfold G. pose proof (groups_of_bytes bits [p] Hb) as E. cbn [flat_map] in E. rewrite app_nil_r in E.
+        unfold sbits_of_bytes in E. cbn [flat_map] in E. rewrite app_nil_r in E. clear E.
+        destruct Hb as [<-|[<-|[<-|[]]]]; reflexivity. }
+      assert (Hsplit : dl = c ++ r) by (symmetry; apply firstn_skipn).
+      rewrite Hsplit at 1 2. rewrite app_length, map_app.
+      destruct (Nat.le_gt_cases ppb (length dl)) as [Hge|Hlt].
+      * assert (Hc : length c = ppb) by (unfold c; rewrite firstn_length; lia).
+        rewrite firstn_app, HG, Hc. replace (ppb + length r - ppb)%nat with (length r) by lia.
+        rewrite (firstn_all2 G) by lia. rewrite map_app. f_equal; [|exact I3].
+        rewrite Hc in Hpv. rewrite <- HG in Hpv at 1. rewrite firstn_all in Hpv. exact Hpv.
+      * assert (Hr0 : r = []) by (unfold r; apply skipn_all2; lia). rewrite Hr0. cbn [length map]. rewrite Nat.add_0_r, !app_nil_r.
+        rewrite firstn_app. replace (length c - length G)%nat with 0%nat by lia. rewrite firstn_O, app_nil_r. exact Hpv.
+Qed.
+
+Lemma fits_extremes : forallb (fun bits => fits bits 0 && fits bits 255) depths_lt8 = true.
+Proof. vm_compute. reflexivity. Qed.
+
+Lemma raise_bits_spec : forall fuel b v b', In b depths_lt8 -> raise_bits fuel b v = Some b' ->
+  In b' depths_lt8 /\ b <= b' /\ fits b' v = true.
+Proof.
+  induction fuel as [|f IH]; intros b v b' Hb H; cbn [raise_bits] in H.
+  - destruct (fits b v) eqn:E; [|discriminate]. injection H as <-. repeat split; auto; lia.
+  - destruct (fits b v) eqn:E; [injection H as <-; repeat split; auto; lia|].
+    destruct (b * 2 =? 8) eqn:E8; [discriminate|]. apply Z.eqb_neq in E8.
+    assert (Hb2 : In (b * 2) depths_lt8) by (destruct Hb as [<-|[<-|[<-|[]]]]; cbn in *; auto; lia).
+    destruct (IH _ _ _ Hb2 H) as (H1 & H2 & H3). repeat split; auto. destruct Hb as [<-|[<-|[<-|[]]]]; lia.
+Qed.
+
+Lemma gray_min_bits_spec data : forall b b', In b depths_lt8 -> bytes_ok data -> gray_min_bits data b = Some b' ->
+  In b' depths_lt8 /\ b <= b' /\ forall v, In v data -> fits b' v = true.
+Proof.
+  induction data as [|x t IH]; intros b b' Hb Hok H; cbn [gray_min_bits] in H.
+  - injection H as <-. split; [exact Hb|split; [lia|intros ? []]].
+  - apply bytes_ok_cons in Hok. destruct Hok as [Hx Hok].
+    destruct ((x =? 0) || (x =? 255)) eqn:E.
+    + destruct (IH _ _ Hb Hok H) as (H1 & H2 & H3). split; [exact H1|split; [exact H2|]]. intros v [<-|Hv]; [|auto].
+      pose proof fits_extremes as T. rewrite forallb_forall in T. specialize (T b' H1). apply andb_true_iff in T.
+      apply orb_true_iff in E. destruct E as [E|E]; apply Z.eqb_eq in E; subst x; tauto.
+    + destruct (raise_bits 3 b x) as [b1|] eqn:Er; [|discriminate].
+      destruct (raise_bits_spec _ _ _ _ Hb Er) as (R1 & R2 & R3).
+      destruct (IH _ _ R1 Hok H) as (H1 & H2 & H3). split; [exact H1|split; [lia|]]. intros v [<-|Hv]; [|auto].
+      destruct (fits_spec b1 x R1 Hx) as (_ & _ & Hm). apply (Hm R3); auto.
+Qed.
+
+Definition reduce_ctype (c : color_type) (bits : Z) : color_type :=
+  match c with
+  | Gray (Some trans) =>
+      Gray (if trans =? replicate16 3 (trans mod 256 / 2 ^ (8 - bits)) bits then Some (trans mod 256 / 2 ^ (8 - bits)) else None)
+  | Gray None => Gray None | RGB key => RGB key | Indexed pal => Indexed pal | GrayAlpha => GrayAlpha | RGBA => RGBA
+  end.
+
+Lemma pixel_reduce_gray key bits v : In bits depths_lt8 -> 0 <= v < 256 -> fits bits v = true ->
+  wf_ctype (Gray key) 8 ->
+  color_of_samples (spec_color_of (reduce_ctype (Gray key) bits)) bits [Z.land v (mask_of bits)]
+  = color_of_samples (SGray key) 8 [v].
+Proof.
+  intros Hb Hv Hf Hwf. destruct (fits_spec bits v Hb Hv) as (Hfit & Hm & Hhi). apply Hfit in Hf.
+  set (m := Z.land v (mask_of bits)) in *.
+  destruct (rep_spec bits m Hb Hm) as (Hs & Hr & Hinj & _).
+  cbn [reduce_ctype spec_color_of]. destruct key as [t|]; cbn [color_of_samples].
+  - cbn [wf_ctype] in Hwf. change (2 ^ 8) with 256 in Hwf. rewrite (Z.mod_small t 256) by exact Hwf.
+    assert (Hrt : 0 <= t / 2 ^ (8 - bits) < 2 ^ bits).
+    { destruct Hb as [<-|[<-|[<-|[]]]]; cbn; split; try (apply Z.div_pos; lia); apply Z.div_lt_upper_bound; lia. }
+    set (rt := t / 2 ^ (8 - bits)) in *.
+    destruct (rep_spec bits rt Hb Hrt) as (_ & Hrr & _ & E16). rewrite E16.
+    unfold key_match. change (2 ^ 8) with 256. rewrite (Z.mod_small t 256) by exact Hwf.
+    destruct (Z.eqb_spec t (rep8 bits rt)) as [Et|Ent]; cbn [spec_color_of color_of_samples]; rewrite <- Hs, <- Hf.
+    + unfold key_match. rewrite (Z.mod_small rt) by exact Hrt.
+      replace (t =? v) with (rt =? m); [reflexivity|]. rewrite Et. symmetry. rewrite Hf at 1. apply Hinj. exact Hrt.
+    + destruct (Z.eqb_spec t v) as [Etv|_]; [|reflexivity]. exfalso. apply Ent. subst t.
+      destruct (Hhi ltac:(apply Hfit; exact Hf)) as [Hh _]. unfold rt. rewrite Hh. exact Hf.
+  - cbn [spec_color_of color_of_samples]. rewrite <- Hs, <- Hf. reflexivity.
+Qed.
+
+Lemma Forall2_of_map_eq {X Y Zt} (f : Y -> Zt) (h : X -> Zt) : forall (dl : list X) (Gs : list Y),
+  map f Gs = map h dl -> Forall2 (fun v g => f g = h v) dl Gs.
+Proof.
+  induction dl as [|v t IH]; intros [|g Gs] H; cbn in H; try discriminate; constructor.
+  - injection H as H1 _. exact H1.
+  - apply IH. injection H as _ H2. exact H2.
+Qed.
+
+Lemma line_bytes_sub bits n : In bits depths_lt8 -> 0 <= n -> line_bytes bits n = cdiv n (8 / bits).
+Proof. intros Hb Hn. unfold line_bytes, cdiv. destruct Hb as [<-|[<-|[<-|[]]]]; cbn; lia. Qed.
+
+Lemma line_bytes_8 n : 0 <= n -> line_bytes 8 n = n.
+Proof. intros Hn. unfold line_bytes, cdiv. lia. Qed.
+
+Lemma pixels_reduce c bits : In bits depths_lt8 -> channels_per_pixel c = 1 -> wf_ctype c 8 ->
+  forall (dl : list Z) (Gs : list (list bool)),
+  Forall2 (fun v g => sval g = Z.land v (mask_of bits)) dl Gs ->
+  (forall g, In g Gs -> length g = Z.to_nat bits) -> bytes_ok dl ->
+  (forall v, In v dl -> match c with Indexed pal => Z.of_nat (length pal) <= 2 ^ bits | _ => fits bits v = true end) ->
+  Forall2 refines (map (fun x => pixel_color (spec_color_of c) 8 (sbits_of_byte x)) dl)
+                  (map (fun g => pixel_color (spec_color_of (reduce_ctype c bits)) bits g) Gs).
+Proof.
+  intros Hbits Ech Hwf dl Gs HF.
+  assert (Hbn : (0 < Z.to_nat bits)%nat) by (destruct Hbits as [<-|[<-|[<-|[]]]]; cbn; lia).
+  induction HF as [|v g dl' Gs' Hvg _ IH]; intros HGl Hlok Hguar; cbn [map]; constructor.
+  - apply bytes_ok_cons in Hlok. destruct Hlok as [Hv _].
+    unfold pixel_color. change (Z.to_nat 8) with 8%nat.
+    rewrite (groups_single 8 (sbits_of_byte v)) by (auto; lia). rewrite (groups_single (Z.to_nat bits) g) by (auto; apply HGl; left; reflexivity).
+    cbn [map]. rewrite sval_sbits_of_byte by exact Hv. rewrite Hvg.
+    specialize (Hguar v (or_introl eq_refl)).
+    destruct c as [key| |pal| |]; try (cbn in Ech; lia).
+    + intros _. apply pixel_reduce_gray; auto.
+    + cbn [reduce_ctype spec_color_of color_of_samples]. unfold rgba8 in *. intros Hsome.
+      destruct (nth_error pal (Z.to_nat v)) as [e|] eqn:En; [|exfalso; apply Hsome; reflexivity].
+      assert (Hvl : (Z.to_nat v < length pal)%nat) by (apply nth_error_Some; congruence).
+      assert (Hm : Z.land v (mask_of bits) = v).
+      { unfold mask_of. replace (2 ^ bits - 1) with (Z.ones bits) by (rewrite Z.ones_equiv; lia).
+        rewrite Z.land_ones by (destruct Hbits as [<-|[<-|[<-|[]]]]; lia). apply Z.mod_small. unfold byte_ok in Hv. lia. }
+      rewrite Hm, En. reflexivity.
+  - apply IH; [intros g' Hg'; apply HGl; right; exact Hg'|apply bytes_ok_cons in Hlok; tauto|intros v' Hv'; apply Hguar; right; exact Hv'].
+Qed.
+
+Theorem reduced_bit_depth_8_or_less_sem img img' pic : wf img ->
+  reduced_bit_depth_8_or_less img = Ok (Some img') -> sem img = Some pic -> sem img' = Some pic /\ wf img'.
+Proof.
+  intros [Hok Hwf] Hred Hsem. unfold reduced_bit_depth_8_or_less in Hred. cbv zeta in Hred.
+  destruct (depth (hdr img) =? 8) eqn:Ed; cbn [negb orb] in Hred; [|discriminate]. apply Z.eqb_eq in Ed.
+  destruct (channels img =? 1) eqn:Ech; cbn [negb] in Hred; [|discriminate]. apply Z.eqb_eq in Ech. unfold channels in Ech.
+  destruct (sem_some_cut _ _ Hsem) as (Hw & Hh & Hbpp & lines & Hcut).
+  assert (Hbpp8 : bpp (hdr img) = 8) by (unfold bpp; rewrite Ed, Ech; lia).
+  match type of Hred with (match ?mb with _ => _ end) = _ => destruct mb as [bits|] eqn:Emb; [|discriminate] end.
+  rewrite (scan_lines_is_layout img lines Hw Hh Hbpp Hcut) in Hred. cbn [bind] in Hred.
+  match type of Hred with context [with_ctype (hdr img) ?c] => change c with (reduce_ctype (ctype (hdr img)) bits) in Hred end.
+  remember (reduce_ctype (ctype (hdr img)) bits) as ct' eqn:Hct'.
+  set (T := fun l : option Z * Z * list Z => map (fun ch => pack_chunk ch bits (mask_of bits) 8) (chunks (Z.to_nat (8 / bits)) (snd l))).
+  assert (Hdata : flat_map (fun l => map (fun ch => pack_chunk ch bits (2 ^ bits - 1) 8) (chunks (Z.to_nat (8 / bits)) (l_data l))) (map to_scanline lines)
+                  = concat (map T lines)).
+  { rewrite flat_map_concat_map, map_map. reflexivity. }
+  rewrite Hdata in Hred. injection Hred as <-.
+  (* the depth chosen, and what it guarantees about the samples *)
+  assert (Hbits : In bits depths_lt8 /\
+                  match ctype (hdr img) with
+                  | Indexed pal => (Z.of_nat (length pal) <= 2 ^ bits)
+                  | _ => forall v, In v (data img) -> fits bits v = true
+                  end).
+  { destruct (ctype (hdr img)) as [key| |pal| |] eqn:Ec; try (cbn in Ech; lia).
+    - destruct (gray_min_bits_spec (data img) 1 bits ltac:(cbn; auto) Hok Emb) as (G1 & _ & G3). split; auto.
+    - destruct (Nat.leb_spec (length pal) 2); [injection Emb as <-; split; [cbn; auto|cbn; lia]|].
+      destruct (Nat.leb_spec (length pal) 4); [injection Emb as <-; split; [cbn; auto|cbn; lia]|].
+      destruct (Nat.leb_spec (length pal) 16); [injection Emb as <-; split; [cbn; auto|cbn; lia]|discriminate]. }
+  destruct Hbits as [Hbits Hguar].
+  assert (Hlines : forall l, In l lines -> length (snd l) = Z.to_nat (snd (fst l)) /\ 0 <= snd (fst l) /\ bytes_ok (snd l) /\ (forall v, In v (snd l) -> In v (data img))).
+  { intros l Hl. destruct (cut_lines_lengths _ _ _ _ _ _ Hw Hh Hcut l Hl) as [H1 H2]. rewrite Hbpp8, line_bytes_8 in H1 by exact H2.
+    destruct (cut_layout_shape _ _ _ Hcut) as [_ Hd0].
+    assert (Hin : forall v, In v (snd l) -> In v (data img)).
+    { intros v Hv. rewrite Hd0. apply in_concat. exists (snd l). split; [apply in_map; exact Hl|exact Hv]. }
+    repeat split; auto. unfold bytes_ok. apply Forall_forall. intros x Hx. eapply bytes_ok_in; [exact Hok|auto]. }
+  assert (Hct1 : channels_per_pixel ct' = 1 /\ depth_legal (spec_color_of ct') bits = true).
+  { subst ct'. destruct (ctype (hdr img)) as [[k|]| |pal| |]; cbn in Ech; try lia; (split; [reflexivity|]);
+      cbn [reduce_ctype spec_color_of depth_legal]; destruct Hbits as [<-|[<-|[<-|[]]]]; reflexivity. }
+  destruct Hct1 as [Hct1 Hleg'].
+  split.
+  - apply (sem_linewise img _ T lines pic); cbn [hdr data width height interlaced depth ctype with_ctype with_depth]; auto.
+    + unfold bpp. cbn [depth ctype with_depth with_ctype]. rewrite Hct1. destruct Hbits as [<-|[<-|[<-|[]]]]; lia.
+    + intros l Hl _. destruct (Hlines l Hl) as (Hlen & Hn & Hlok & Hlin).
+      assert (Hbpp' : bpp (with_depth (with_ctype (hdr img) ct') bits) = bits) by (unfold bpp; cbn [depth ctype with_depth with_ctype]; rewrite Hct1; lia).
+      rewrite Hbpp', Hbpp8.
+      destruct (pack_line bits Hbits (length (snd l)) (snd l) (le_n _) Hlok) as (P1 & P2 & P3). cbn zeta in P1, P2, P3. fold (T l) in P1, P2, P3.
+      split.
+      * rewrite line_bytes_sub by auto. rewrite <- (Z2Nat.id (snd (fst l))) at 1 by exact Hn. rewrite <- Hlen, <- P1. lia.
+      * rewrite (line_pixels_8 _ _ Hlen). unfold line_pixels. rewrite <- Hlen. rewrite !map_map.
+        set (Gs := firstn (length (snd l)) (groups (Z.to_nat bits) (sbits_of_bytes (T l)))) in *.
+        pose proof (Forall2_of_map_eq sval (fun v => Z.land v (mask_of bits)) (snd l) Gs P3) as HF.
+        assert (HGl : forall g, In g Gs -> length g = Z.to_nat bits).
+        { intros g Hg. unfold Gs in Hg. apply In_firstn in Hg. pose proof (groups_lengths (Z.to_nat bits) (sbits_of_bytes (T l))) as GL.
+          rewrite Forall_forall in GL. apply GL. exact Hg. }
+        rewrite Ed. subst ct'. apply pixels_reduce; auto.
+        -- rewrite <- Ed. exact Hwf.
+        -- intros v Hv. destruct (ctype (hdr img)); auto.
+  - split; cbn [data hdr ctype depth with_ctype with_depth].
+    + unfold bytes_ok. apply Forall_forall. intros x Hx. apply in_concat in Hx. destruct Hx as [tl [Htl Hx]].
+      apply in_map_iff in Htl. destruct Htl as [l [<- Hl]]. destruct (Hlines l Hl) as (_ & _ & Hlok & _).
+      destruct (pack_line bits Hbits (length (snd l)) (snd l) (le_n _) Hlok) as (_ & P2 & _). cbn zeta in P2.
+      eapply bytes_ok_in; [exact P2|exact Hx].
+    + subst ct'. destruct (ctype (hdr img)) as [[k|]| | | |]; try (cbn in Ech; lia); cbn [reduce_ctype wf_ctype] in *; auto.
+      rewrite Ed in Hwf. change (2 ^ 8) with 256 in Hwf. rewrite (Z.mod_small k 256) by exact Hwf.
+      destruct (k =? replicate16 3 (k / 2 ^ (8 - bits)) bits); cbn [wf_ctype]; [|exact I].
+      destruct Hbits as [<-|[<-|[<-|[]]]]; cbn; split; try (apply Z.div_pos; lia); apply Z.div_lt_upper_bound; lia.
+Qed.
